@@ -107,7 +107,7 @@ def c15_r3(ctx):
 ALLOWED_STORES = {
     ("contrib.no_reimports", "NoReimportsPlugin.generate_init_module"): {"module.body"},
     ("contrib.extract_operations", "ExtractOperationsPlugin.generate_client_method"): {"method_def.body", "keyword.value"},
-    ("contrib.extract_operations", "ExtractOperationsPlugin.generate_init_module"): {"module.body.insert()", "cast(ast.List, all_assign.value).elts"},
+    ("contrib.extract_operations", "ExtractOperationsPlugin.generate_init_module"): {"module.body.insert()", "cast(ast.List, cast(ast.Assign, module.body[-1]).value).elts"},
     ("contrib.extract_operations", "ExtractOperationsPlugin.generate_client_module"): {"module.body.insert()"},
     ("contrib.shorter_results", "ShorterResultsPlugin.generate_client_module"): {"stmt.names.append()", "module.body.insert()"},
     ("contrib.shorter_results", "ShorterResultsPlugin._generate_subscription_client_method"): {"method_def.returns", "method_def.body[-1]"},
@@ -117,7 +117,7 @@ ALLOWED_STORES = {
     ("contrib.client_forward_refs", "ClientForwardRefsPlugin._rewrite_input_args_to_constants"): {"method_def.args.args[i].annotation"},
     ("contrib.client_forward_refs", "ClientForwardRefsPlugin._insert_import_statement_in_method"): {"method_def.body.insert()"},
     ("contrib.client_forward_refs", "ClientForwardRefsPlugin._update_existing_imports"): {"node.names", "module.body"},
-    ("contrib.client_forward_refs", "ClientForwardRefsPlugin._add_forward_ref_imports"): {"module.body.insert()", "type_checking_imports[module_name].names.append()"},
+    ("contrib.client_forward_refs", "ClientForwardRefsPlugin._add_forward_ref_imports"): {"module.body.insert()", "type_checking_imports[self.imported_classes[cls]].names.append()"},
     ("contrib.client_forward_refs", "ClientForwardRefsPlugin._update_name_to_constant"): {"node.slice", "node.elts[i]"},
 }
 AST_MUTATORS = {"append", "extend", "insert", "pop", "remove", "clear", "sort", "reverse"}
@@ -131,9 +131,50 @@ def _ast_stores(fi: FuncInfo) -> Set[str]:
             locals_built.add(n.targets[0].id)
         if isinstance(n, ast.AnnAssign) and isinstance(n.target, ast.Name) and isinstance(n.value, (ast.List, ast.Dict, ast.ListComp, ast.Set)):
             locals_built.add(n.target.id)
+    # locals that merely name a part of an object (`x = cast(T, obj.attr)`, `x = obj.attr[0]`), assigned once: a store through
+    # them is a store into that part
+    import copy as _copy
+    assigned: Dict[str, List[ast.AST]] = {}
+    for n in walk_no_nested(fi.node):
+        if isinstance(n, ast.Assign):
+            for tg in n.targets:
+                for nm in ast.walk(tg):
+                    if isinstance(nm, ast.Name) and isinstance(nm.ctx, ast.Store):
+                        assigned.setdefault(nm.id, []).append(n.value if tg is nm else None)
+        elif isinstance(n, (ast.AnnAssign, ast.AugAssign)) and isinstance(n.target, ast.Name):
+            assigned.setdefault(n.target.id, []).append(n.value if isinstance(n, ast.AnnAssign) else None)
+        elif isinstance(n, (ast.For, ast.AsyncFor, ast.comprehension)):
+            for nm in ast.walk(n.target):
+                if isinstance(nm, ast.Name):
+                    assigned.setdefault(nm.id, []).append(None)
+        elif isinstance(n, ast.withitem) and n.optional_vars is not None:
+            for nm in ast.walk(n.optional_vars):
+                if isinstance(nm, ast.Name):
+                    assigned.setdefault(nm.id, []).append(None)
+
+    def _is_view(v):
+        v0 = v
+        if isinstance(v0, ast.Call) and isinstance(v0.func, ast.Name) and v0.func.id == "cast" and len(v0.args) == 2:
+            v0 = v0.args[1]
+        return isinstance(v0, (ast.Attribute, ast.Subscript)) or (isinstance(v0, ast.Call) and isinstance(v0.func, ast.Name) and v0.func.id == "cast")
+    views = {k: vs[0] for k, vs in assigned.items() if len(vs) == 1 and vs[0] is not None and _is_view(vs[0]) and k not in {a.arg for a in fi.node.args.args}}
+
+    class _V(ast.NodeTransformer):
+        def visit_Name(self, nm):
+            if isinstance(nm.ctx, ast.Load) and nm.id in views:
+                return self.visit(_copy.deepcopy(views[nm.id]))
+            return nm
+
+    def _resolved(x):
+        y = _copy.deepcopy(x)
+        if isinstance(y, (ast.Attribute, ast.Subscript)):
+            y.value = _V().visit(y.value)
+            return y
+        return _V().visit(y)
     for n in walk_no_nested(fi.node):
         t = None
         if isinstance(n, (ast.Attribute, ast.Subscript)) and isinstance(n.ctx, (ast.Store, ast.Del)):
+            n = _resolved(n)
             root = n
             while isinstance(root, (ast.Attribute, ast.Subscript, ast.Call)):
                 root = root.value if not isinstance(root, ast.Call) else (allargs(root)[1] if len(allargs(root)) > 1 else root.func)
@@ -141,6 +182,8 @@ def _ast_stores(fi: FuncInfo) -> Set[str]:
                 continue
             t = norm(n)
         elif isinstance(n, ast.Call) and isinstance(n.func, ast.Attribute) and n.func.attr in AST_MUTATORS:
+            n = _copy.deepcopy(n)
+            n.func.value = _V().visit(n.func.value)
             root = n.func.value
             while isinstance(root, (ast.Attribute, ast.Subscript)):
                 root = root.value
@@ -501,6 +544,8 @@ def c14_r4(ctx):
                     expanded = True
             if not expanded:
                 terms.append(t)
+    from ..util import expand_elem_terms
+    terms = [str(norm(ast.parse(x.replace("<elem>", "_ELEM_"), mode="eval").body)).replace("_ELEM_", "<elem>") if "<elem>" in x else x for t in terms for x in expand_elem_terms(t)]
     terms = sorted(set(terms))
     want = sorted(["self.formatted_variables.copy()", "<elem>(self._subfields).get_formatted_variables()", "<elem>(<elem>(self._inline_fragments.values())).get_formatted_variables()"])
     ctx.check(terms == want, key(fv, "recursive merge"), f"sub-field and inline-fragment variables are not merged recursively: the result is the union of {terms}", fv.loc(), okmsg="variables merged recursively over sub-fields and inline fragments")
